@@ -34,6 +34,24 @@ def run_property(pid: str, tier: str, repo_root: str, only: str | None = None) -
                 return set()
             return repo.new_vocabulary(rel, qual)
         chk.gate = gate
+
+        def locals_of(site, repo=repo):
+            try:
+                loc, qual = site.split(' ', 1)
+                rel = loc.rsplit(':', 1)[0]
+            except ValueError:
+                return set()
+            for m_ in repo.modules.values():
+                if m_.relpath == rel and qual in m_.funcs:
+                    f_ = m_.funcs[qual]
+                    import ast as _ast
+                    out = set()
+                    for n_ in _ast.walk(f_.node):
+                        if isinstance(n_, _ast.Name) and isinstance(n_.ctx, _ast.Store):
+                            out.add(n_.id)
+                    return out - set(f_.params)
+            return set()
+        chk.locals_of = locals_of
         chk.firm = bool(getattr(mod, 'FIRM', False))
         mod.run(repo, chk, tier)
         if tier == 'thorough' and hasattr(mod, 'run_thorough'):
